@@ -521,7 +521,7 @@ impl World {
             }
         }
         if fatal {
-            self.alias_context(&mut f, ctx);
+            self.alias_context(&mut f, ctx, has_size_arg);
             return StepResult { failures: f, fatal: true, outcome: real };
         }
 
@@ -530,7 +530,7 @@ impl World {
             Ok(p) => p,
             Err(mut fails) => {
                 f.append(&mut fails);
-                self.alias_context(&mut f, ctx);
+                self.alias_context(&mut f, ctx, has_size_arg);
                 return StepResult { failures: f, fatal: true, outcome: real };
             }
         };
@@ -689,13 +689,13 @@ impl World {
         let real_ok = matches!(real, Outcome::Ok(_));
         self.op_clauses(op, &r, &pre, &post, &pre_t, &pre_model_t, &events, requests, real_ok, &real, ctx, &mut f);
 
-        self.alias_context(&mut f, ctx);
+        self.alias_context(&mut f, ctx, has_size_arg);
         StepResult { failures: f, fatal, outcome: real }
     }
 
     /// Failures that happen after an injected fault / giant request / callback panic are also
     /// violations of the property that covers those situations.
-    fn alias_context(&self, f: &mut Vec<Failure>, ctx: &Ctx) {
+    fn alias_context(&self, f: &mut Vec<Failure>, ctx: &Ctx, size_op: bool) {
         let mut extra = Vec::new();
         for x in f.iter() {
             let p = x.property().to_string();
@@ -705,6 +705,9 @@ impl World {
             }
             if ctx.giant_refused && p != "C06" && matches!(p.as_str(), "C01" | "C02" | "C03") {
                 extra.push(Failure::new(&format!("C06.after_refusal_{tail}"), x.detail.clone()));
+            }
+            if size_op && !ctx.fault_fired && p != "C06" && matches!(p.as_str(), "C01" | "C02" | "C03") {
+                extra.push(Failure::new(&format!("C06.size_op_{tail}"), x.detail.clone()));
             }
             if ctx.injected_fired && p != "C18" && matches!(p.as_str(), "C01" | "C02" | "C03") {
                 extra.push(Failure::new(&format!("C18.after_panic_{tail}"), x.detail.clone()));
@@ -919,7 +922,9 @@ impl World {
             if let Some(d) = &post[*slot as usize] {
                 ctx.eval("C11.with_capacity");
                 if d.cap < r.size || d.len != 0 {
-                    f.push(Failure::new("C11.with_capacity", format!("with_capacity({}) gave capacity {} len {}", r.size, d.cap, d.len)));
+                    for c in ["C11.with_capacity", "C06.postcondition"] {
+                        f.push(Failure::new(c, format!("with_capacity({}) gave capacity {} len {}", r.size, d.cap, d.len)));
+                    }
                 }
                 if r.size >= 1 << 20 {
                     ctx.tag("giant_nontrivial");
@@ -1063,15 +1068,27 @@ impl World {
 
         // ---- C17 readers
         if let Op::Compare { a, b } = op {
-            self.compare_clauses(*a, *b, ctx, f);
+            self.compare_clauses(*a, *b, post, ctx, f);
         }
     }
 
-    pub fn compare_clauses(&self, a: Slot, b: Slot, ctx: &mut Ctx, f: &mut Vec<Failure>) {
+    pub fn compare_clauses(&self, a: Slot, b: Slot, post: &[Option<Obs>; SLOTS], ctx: &mut Ctx, f: &mut Vec<Failure>) {
         use std::borrow::Cow;
         let (Some(x), Some(y)) = (self.slots[a as usize].as_ref(), self.slots[b as usize].as_ref()) else { return };
         let (Some(mx), Some(my)) = (self.model[a as usize].as_ref(), self.model[b as usize].as_ref()) else { return };
         ctx.eval("C17.eq");
+        if let (Some(oa), Some(ob)) = (&post[a as usize], &post[b as usize]) {
+            if a != b && mx == my && (oa.kind != ob.kind || oa.cap != ob.cap || oa.rc != ob.rc) {
+                ctx.tag("c17_same_text_diff_storage");
+                ctx.class(format!("c17.same.{}.{}", oa.state_name(), ob.state_name()));
+            }
+            if mx != my {
+                let common = mx.bytes().zip(my.bytes()).take_while(|(p, q)| p == q).count();
+                if common >= 15 {
+                    ctx.tag("c17_diff_late");
+                }
+            }
+        }
         let mut bad = |clause: &str, d: String| f.push(Failure::new(clause, d));
         if (x == y) != (mx == my) || (y == x) != (mx == my) {
             bad("C17.eq", format!("{mx:?} == {my:?}: LeanString says {}, str says {}", x == y, mx == my));
@@ -1100,6 +1117,27 @@ impl World {
         ];
         if got.iter().any(|g| *g != want) {
             bad("C17.eq_foreign", format!("{mx:?} vs {my:?} as str/&str/String/Cow: {got:?}, expected all {want}"));
+        }
+        // lookups by &str (Borrow<str>), AsRef, Deref
+        let mut hm: HashMap<lean_string::LeanString, u8> = HashMap::new();
+        hm.insert(x.clone(), 1);
+        let mut bm: std::collections::BTreeMap<lean_string::LeanString, u8> = std::collections::BTreeMap::new();
+        bm.insert(x.clone(), 1);
+        let found = (hm.get(sy).is_some(), bm.get(sy).is_some(), hm.contains_key(mx.as_str()), bm.contains_key(mx.as_str()));
+        if found != (want, want, true, true) {
+            bad("C17.lookup", format!("map keyed by {mx:?}: lookups by &str {my:?} / own text gave {found:?}, expected ({want}, {want}, true, true)"));
+        }
+        let r1: &str = x.as_ref();
+        let r2: &[u8] = x.as_ref();
+        let r3: &std::ffi::OsStr = x.as_ref();
+        let r4: &str = x;
+        let r5: &str = std::borrow::Borrow::borrow(x);
+        if r1 != mx.as_str() || r2 != mx.as_bytes() || r3 != std::ffi::OsStr::new(mx.as_str()) || r4 != mx.as_str() || r5 != mx.as_str() {
+            bad("C17.as_ref", format!("AsRef/Deref/Borrow views of {mx:?} differ from the text"));
+        }
+        let back: String = String::from(x);
+        if back != *mx {
+            bad("C17.as_ref", format!("String::from(&LeanString) of {mx:?} gave {back:?}"));
         }
         let _ = fnv(b"");
     }
